@@ -38,6 +38,7 @@ type fsState struct {
 	tmpN    int
 	log     []string
 	writesTo map[string]int
+	std      map[string]*value
 }
 
 func (in *Interp) fs() *fsState {
@@ -380,6 +381,19 @@ func registerFS(in *Interp) {
 			return tuple{"", false}
 		}
 		return tuple{normStr(append([]value{}, f.data...)), true}
+	}
+	I[zz+"CaptureStdout"] = func(in *Interp, fr *frame, fn *ssa.Function, a []value) value {
+		st := in.fs()
+		before := 0
+		if f := st.files["/dev/stdout"]; f != nil {
+			before = len(f.data)
+		}
+		in.call(fr, fr.pos, a[0], nil)
+		f := st.files["/dev/stdout"]
+		if f == nil {
+			return ""
+		}
+		return normStr(append([]value{}, f.data[before:]...))
 	}
 	I[zz+"FSArm"] = func(in *Interp, fr *frame, fn *ssa.Function, a []value) value {
 		st := in.fs()
